@@ -4,6 +4,7 @@ without instantiation, hollow pilot launcher, sizing reference model (A.6).
 import os
 import glob
 import json
+import signal
 import tempfile
 import contextlib
 
@@ -125,10 +126,24 @@ def _no_instances(base):
         del base.__new__
 
 
+@contextlib.contextmanager
+def _keep_signal_handlers():
+    # importing agent/executing/popen.py (the executor factory does) installs
+    # process-wide SIGTERM/SIGINT handlers that swallow the signal; a forked
+    # shard worker would then survive Pool.terminate() and hang the run
+    old = {s: signal.getsignal(s) for s in (signal.SIGTERM, signal.SIGINT)}
+    try:
+        yield
+    finally:
+        for s, h in old.items():
+            if signal.getsignal(s) is not h and h is not None:
+                signal.signal(s, h)
+
+
 def resolve(base, *args):
     """base.create(*args) up to instantiation -> the class chosen.
     Raises what the factory raises for a name it does not know."""
-    with _no_instances(base):
+    with _keep_signal_handlers(), _no_instances(base):
         try:
             ret = base.create(*args)
         except Resolved as e:
@@ -243,7 +258,24 @@ def read_staged_agent_cfg(pilot):
 
 
 def cleanup_tmp():
+    """remove the agent config files of this case.  radical.utils.write_json
+    (used by agent_cfg.write) never closes the descriptor of its mkstemp file,
+    one per _prepare_pilot call: close those which point into our directory."""
     d = own_tmp()
+    try:
+        fds = os.listdir('/proc/self/fd')
+    except OSError:
+        fds = []
+    for fd in fds:
+        try:
+            tgt = os.readlink('/proc/self/fd/%s' % fd)
+        except OSError:
+            continue
+        if tgt.startswith(d + '/'):
+            try:
+                os.close(int(fd))
+            except OSError:
+                pass
     for fn in os.listdir(d):
         try:
             os.unlink(os.path.join(d, fn))
